@@ -146,6 +146,18 @@ def _replay_wyckoff_params(sg, letter, params=None):
     occ = [(letter, 29, params)]
     atoms = pinned_probe(sg, occ, npin=2)
     res = {"probe": {"sg": sg, "occupied": [o[0] for o in occ], "parameters": params or "default", "natoms": len(atoms)}}
+    # the tabulated representative really is a position of that letter: spglib's independent assignment for the probe atoms (standard setting only)
+    try:
+        import spglib
+        ds = spglib.get_symmetry_dataset((atoms.get_cell(), atoms.get_scaled_positions(), atoms.get_atomic_numbers()), 1e-3)
+        if ds is not None and ds.number == sg and np.abs(np.array(ds.transformation_matrix) - np.eye(3)).max() < 1e-6 and np.abs((np.array(ds.origin_shift) + 0.5) % 1.0 - 0.5).max() < 1e-6:
+            got = sorted({ds.wyckoffs[i] for i in range(len(atoms)) if atoms.get_atomic_numbers()[i] == 29})
+            if got != [letter]:
+                res.update(reproduced=True, observed="atoms generated from the tabulated representative %s of position %s are on position %s according to spglib" % (
+                    tabvc.load_tables()[1][sg][letter]["expressions"][0], letter, got))
+                return res
+    except Exception:
+        pass
     return check_wyckoff_params(atoms, res)
 
 
